@@ -1392,7 +1392,8 @@ def zone_table_rule(repo, rep):
     cases.append(('utm', F(180), 0, F(1), F(-177)))
     for lon, z in ((F(147), 55), (F(1506, 10), 55), (F(-177), 1), (F(-1795, 10), 2), (F(1795, 10), 60), (F(3), 31), (F(3), 30)):
         cases.append(('utm', lon, z, F(z), F(-183 + 6 * z)))
-    for lon in (F(140), F(1409, 10), F(141), F(142) - F(1, 10 ** 6), F(142), F(1506, 10), F(1531, 10), F(1485, 10)):
+    # 144 and 150 are the first meridians of AMG zones 55 and 56: the fraction of the zone is exactly zero there (sub-zone 1, not a sub-zone 0)
+    for lon in (F(140), F(1409, 10), F(141), F(142) - F(1, 10 ** 6), F(142), F(144), F(150), F(1506, 10), F(1531, 10), F(1485, 10)):
         z, cm = isg(lon)
         cases.append(('isg', lon, 0, z, cm))
     for z in ISG_ZONES:
@@ -1880,3 +1881,40 @@ def iterator_reuse_rule(repo, rep, modnames):
                              % (name, stmt_text(b)[:70], u1.lineno, name, u2.lineno), expected='a list / tuple, or one single pass', actual=stmt_text(b)[:100])
             else:
                 rep.holds('R-STATE', key, where(f, f.node), 'no one-shot iterator is read twice', work=False)
+
+
+def antimeridian_symmetry_rule(repo, rep):
+    """an explicit zone next to the antimeridian is asked for longitudes on its other side (zone 60 for 179.25 W, zone 1 for 179.5 E): the raw
+    difference lon - cm is then beyond +/-180 degrees and only its sine and cosine may matter.  The Transverse Mercator image is mirror-
+    symmetric about the central meridian: geo2grid is evaluated with constant arguments at a point across the antimeridian and at its
+    mirror image on the near side of the central meridian - eastings must be opposite about the false easting, northings equal."""
+    from fractions import Fraction as F
+    from ..symval import Evaluator, Tup
+    m = repo.module('geodepy.convert')
+    mc = repo.module('geodepy.constants')
+    f = m.func('geo2grid')
+    ps = [p.name for p in f.params]
+
+    def run(lat, lon, zone):
+        ev = Evaluator(repo, opaque={'psfandgridconv'})
+        try:
+            val = ev.call_function(f, {ps[0]: C(lat), ps[1]: C(lon), ps[2]: C(zone), 'ellipsoid': ev.global_value(mc, 'grs80'), 'prj': ev.global_value(mc, 'utm')})
+            if not isinstance(val, Tup) or len(val.items) < 4:
+                return None
+            return alg.evalf(val.items[2], {}).real, alg.evalf(val.items[3], {}).real
+        except Exception:
+            return None
+    for lat, lon_far, lon_near, zone in ((F(-67, 2), F(-717, 4), F(693, 4), 60), (F(45), F(359, 2), F(-347, 2), 1), (F(-67, 2), F(-359, 2), F(347, 2), 60)):
+        key = 'R-TABLE::geodepy/convert.py::geo2grid::antimeridian-mirror(zone=%d,lon=%s)' % (zone, float(lon_far))
+        a, b = run(lat, lon_far, zone), run(lat, lon_near, zone)
+        w = where(f, f.node)
+        if a is None or b is None:
+            rep.undecided('R-TABLE', key, w, 'geo2grid does not fold to numbers at the two mirror points')
+        elif abs((a[0] - 500000) + (b[0] - 500000)) < 1e-3 and abs(a[1] - b[1]) < 1e-3:
+            rep.holds('R-TABLE', key, w, 'zone %d: longitude %s (across the antimeridian) and its mirror image %s give eastings %.4f / %.4f (opposite about 500 000) and equal northings' % (
+                zone, float(lon_far), float(lon_near), a[0], b[0]))
+        else:
+            rep.violated('R-TABLE', key, w, 'geo2grid(%s, %s, zone=%d) gives E %.4f N %.4f; the mirror image about the central meridian, longitude %s, gives E %.4f N %.4f - the two must be opposite '
+                         'about the false easting with equal northings: something other than the sine / cosine of lon - cm (here %s degrees) enters the result'
+                         % (float(lat), float(lon_far), zone, a[0], a[1], float(lon_near), b[0], b[1], float(lon_far) - (-183 + 6 * zone)),
+                         expected='E = %.4f' % (1000000 - b[0]), actual='E = %.4f' % a[0])
